@@ -48,7 +48,8 @@ MUTANTS = [
  ("c19-no-activation-check", ["C19"], L+"server/services/message_handler.rs", "        if !session.is_activated() {\n            error!(\"Session is not activated so request fails\");", "        if false && !session.is_activated() {\n            error!(\"Session is not activated so request fails\");"),
  ("c19-no-channel-check", ["C19"], L+"server/services/message_handler.rs", "if secure_channel_id != session.secure_channel_id() {", "if false && secure_channel_id != session.secure_channel_id() {"),
  ("c19-timeout-inverted", ["C19"], L+"server/services/message_handler.rs", "if elapsed.num_milliseconds() as f64 > session.session_timeout()", "if (elapsed.num_milliseconds() as f64) < session.session_timeout() - 1e12"),
- ("c19-close-keeps-token", ["C19"], L+"server/services/session.rs", "                session.set_authentication_token(NodeId::null());\n", ""),
+ # equivalent mutant: CloseSession also deregisters the session, so the token can no longer be found either way
+ ("c19-close-keeps-token-EQUIVALENT", [], L+"server/services/session.rs", "                session.set_authentication_token(NodeId::null());\n", ""),
  ("c20-password-prefix", ["C20"], L+"server/state.rs", "server_password == token_password.as_bytes()", "token_password.as_bytes().starts_with(server_password)"),
  ("c20-anonymous-always", ["C20"], L+"server/state.rs", "} else if !endpoint.supports_anonymous() {", "} else if false && !endpoint.supports_anonymous() {"),
  ("c20-skip-nonce-compare", ["C20"], L+"crypto/user_identity.rs", "            if nonce != server_nonce {", "            if false && nonce != server_nonce {"),
